@@ -30,6 +30,9 @@ DBIN = os.path.join(LEAN, ".lake", "build", "bin", "mbdriver")
 ALLOWED_AXIOMS = {"propext", "Classical.choice", "Quot.sound"}
 FORBIDDEN = re.compile(r"\b(sorry|admit|native_decide|bv_decide|implemented_by|unsafe)\b|^\s*axiom\s|maxHeartbeats\s+0")
 
+# generated model files beyond Consts.lean (used by every model) that a property's model depends on
+GENERATED_FOR = {**{f"C{n}": ("SimConsts.lean",) for n in range(14, 20)}, "C20": ("Ffi.lean",)}
+
 sys.path.insert(0, HERE)
 import props  # noqa: E402
 
@@ -116,7 +119,12 @@ def proof_side(pid, ev):
     rc, out = sh([sys.executable, os.path.join(HERE, "extract.py")])
     ev["coverage"]["translator"] = out.strip()
     if rc != 0:
-        return False, "translator", out
+        # the tie is broken for this property only if a generated file its model uses could not be regenerated
+        broken = set(re.findall(r"TIE BROKEN \[([^\]]+)\]", out))
+        mine = set(GENERATED_FOR.get(pid, ())) | {"Consts.lean", "*"}
+        if not broken or broken & mine:
+            return False, "translator", out
+        ev["coverage"]["translator_other"] = "generators of other properties failed: " + ", ".join(sorted(broken))
     mod = f"MbVerif.Props.{pid}"
     modfile = os.path.join(LEAN, "MbVerif", "Props", f"{pid}.lean")
     if not os.path.exists(modfile):
